@@ -1,6 +1,7 @@
 #![allow(dead_code)]
 //! ilv — runtime monitors for inputlayer (one subcommand per property).
 
+mod mirilane;
 mod crash;
 mod ctx;
 mod eng;
@@ -46,8 +47,10 @@ fn find(id: &str) -> &'static Check {
 }
 
 fn main() {
-    ctx::install_quiet_panic_hook();
     let args: Vec<String> = std::env::args().collect();
+    if args.get(2).map(String::as_str) != Some("mirilane") {
+        ctx::install_quiet_panic_hook();
+    }
     let cmd = args.get(1).map(String::as_str).unwrap_or("");
     match cmd {
         "run" => {
@@ -185,6 +188,9 @@ fn run_parent(check: &Check, tier: Tier, seed: u64, shards: u64, only_case: Opti
             }
         }
         let _ = std::fs::remove_dir_all(&dir);
+    }
+    if tier == Tier::Thorough && only_case.is_none() && std::env::var("ILV_NO_SANITIZER_LANES").is_err() {
+        mirilane::sanitizer_lanes(check.meta.id, seed, &mut report);
     }
     let wall = start.elapsed().as_secs_f64();
     ctx::finalize(check.meta, tier, seed, &report, wall)
